@@ -110,7 +110,11 @@ TRow ==
          r == [rep |-> t.rep, dest |-> t.dest, point |-> PointOf(t.point)]
          bad18 == t.outcome \notin Allowed(r)
          bad03 == Documented(r) /\ t.outcome # "same"
+         \* C13: a value of the destination's own type is accepted by Validate; Parse must accept it too, unchanged
+         bad13 == t.vissues >= 0 /\ ((t.vissues = 0) # (t.outcome = "same"))
      IN TLCSet(1, TLCGet(1)
+          \o (IF bad13 THEN <<[prop |-> "C13", kind |-> "modes-disagree-on-typed-value", id |-> t.id, line |-> l,
+                               detail |-> [rep |-> t.rep, dest |-> t.dest, point |-> t.point, input |-> t.input, got |-> t.got, outcome |-> t.outcome, validate_issues |-> t.vissues]]>> ELSE <<>>)
           \o (IF bad18 THEN <<[prop |-> "C18", kind |-> "silently-changed", id |-> t.id, line |-> l,
                                detail |-> [rep |-> t.rep, dest |-> t.dest, point |-> t.point, input |-> t.input, got |-> t.got, outcome |-> t.outcome]]>> ELSE <<>>)
           \o (IF bad03 THEN <<[prop |-> "C03", kind |-> "documented-coercion-failed", id |-> t.id, line |-> l,
